@@ -183,7 +183,7 @@ class P_pdb(StructureParser):
                         raise NotImplementedError(emsg)
                 elif record in ("ATOM", "HETATM"):
                     name = line[12:16].strip()
-                    rc = [float(x) for x in line[30:54].split()]
+                    rc = [float(line[i : i + 8]) for i in (30, 38, 46)]
                     try:
                         occupancy = float(line[54:60])
                     except ValueError:
